@@ -8,6 +8,7 @@ static const char *GOOD[5] = {"-12", "200", "0xBEEF01", "A1b2C3", "\"hi\\\"x\""}
 static const char *BAD[5] = {"1x", "-1", "0x", "A1b", "\"hi"};
 static const char *OVER[5] = {"32768", "256", "0x100000000", "A1B2C3D4", "\"toolong\""};
 
+static int g_cap = 96;
 static void build(const int ty[3], const int acc[3], int hmask, int need_all, int shared)
 {
         struct wcmd *c = sw_table(1);
@@ -20,7 +21,7 @@ static void build(const int ty[3], const int acc[3], int hmask, int need_all, in
                 c[0].var[i].type = T[ty[i]]; c[0].var[i].size = (uint8_t)SZ[ty[i]]; c[0].var[i].access = (cat_var_access)acc[i];
                 c[0].var[i].wcb = 1;
         }
-        sw_caps(96, shared);
+        sw_caps(g_cap, shared);
         W.line_max = 160;
         W.mon = P_ALL;
         W.nev = 2;
@@ -51,7 +52,7 @@ int main(int argc, char **argv)
         sw_init(argc, argv, "access");
         int idx = 0;
         char line[300];
-        static const int FILLS[3] = {0, 0xA5, 'g'};
+        static const int FILLS[4] = {0, 0xA5, 'g', '"'};
         for (int t0 = 0; t0 < 5; t0++)
         for (int am = 0; am < 27; am++)
         for (int hm = 0; hm < 4; hm++, idx++) {
@@ -59,12 +60,21 @@ int main(int argc, char **argv)
                 int ty[3] = {t0, (t0 + 1 + am % 2) % 5, (t0 + 3) % 5};
                 int acc[3] = {am % 3, (am / 3) % 3, am / 9};
                 int hmask = (hm & 1 ? HM_R : 0) | (hm & 2 ? HM_W : 0);
-                for (int fi = 0; fi < 3; fi++)
+                for (int fi = 0; fi < 4; fi++)
                 for (int na = 0; na < 2; na++) {
                         W.wo_fill = FILLS[fi];
                         build(ty, acc, hmask, na, fi & 1);
                         snprintf(SW.extra, sizeof SW.extra, "types=%d,%d,%d access=%d,%d,%d handlers=%d need_all=%d wo_fill=0x%02x", ty[0], ty[1], ty[2], acc[0], acc[1], acc[2], hmask, na, FILLS[fi]);
                         if (run("AT+A?\n")) goto out;
+                        /* the same READ (and both event paths) at every small capacity: whether the response fits must not depend on write-only contents */
+                        if (na == 0 && (acc[0] == CAT_VAR_ACCESS_WRITE_ONLY || acc[1] == CAT_VAR_ACCESS_WRITE_ONLY || acc[2] == CAT_VAR_ACCESS_WRITE_ONLY)) {
+                                for (g_cap = 8; g_cap <= 44; g_cap++) {
+                                        build(ty, acc, hmask, na, fi & 1);
+                                        if (run("AT+A?\n")) goto out;
+                                }
+                                g_cap = 96;
+                                build(ty, acc, hmask, na, fi & 1);
+                        }
                         if (run("AT+A=?\n")) goto out;
                         if (run("AT+A\n")) goto out;
                         snprintf(line, sizeof line, "AT+A=%s,%s,%s\n", GOOD[ty[0]], GOOD[ty[1]], GOOD[ty[2]]);
